@@ -281,6 +281,59 @@ def evaluated_table(fi: FuncInfo, M: int, gray: bool, flag: str):
     return [int("".join(str(int(x)) for x in r), 2) for r in bp]
 
 
+def _qam_label_shape_listed(fi: FuncInfo) -> bool:
+    gi = {unparse(s.targets[0]) for s in stmts_of(fi.body) if isinstance(s, ast.Assign) and unparse(s.targets[0]) in ("i_gray", "j_gray")}
+    idx = [s for s in stmts_of(fi.body) if isinstance(s, ast.Assign) and unparse(s.targets[0]) == "idx"]
+    fm = {unparse(s.targets[0]) for s in stmts_of(fi.body) if isinstance(s, ast.Assign) and unparse(s.targets[0]) in ("bits_i", "bits_j")}
+    cat = [s for s in stmts_of(fi.body) if isinstance(s, ast.For) and "bits_i + bits_j" in unparse(s.iter)]
+    return gi == {"i_gray", "j_gray"} and len(idx) == 1 and fm == {"bits_i", "bits_j"} and len(cat) == 1
+
+
+def qam_by_evaluation(repo: Repo, rep: Report, fi: FuncInfo) -> int:
+    """Unlisted construction of the QAM tables: the constructor body is run (own arithmetic) for k = 2, 4, 8 and both
+    labelings; the points must be the k x k product grid of equidistant levels, the labels a bijection, natural labels
+    binary(i), and under Gray coding nearest neighbours on the grid must differ in exactly one bit.  Returns the number
+    of obligations emitted, 0 when the body is not evaluable (the shape rules then report)."""
+    from ..frag import FragRaise, FragReturn, run_fragment
+
+    b2g = repo.func(UT, "binary_to_gray").node
+    results = {}
+    try:
+        for gray in (True, False):
+            for k in (2, 4, 8):
+                M, b = k * k, 2 * (k.bit_length() - 1)
+                env = run_fragment(fi.body, {}, {"self.order": M, "self._k": k, "self._bits_per_symbol": b, "self.gray_coding": gray, "self.normalize": False}, max_steps=900000, materialise=True, funcs={"binary_to_gray": b2g})
+                pts, bp = env.get("constellation"), env.get("bit_patterns")
+                if not (isinstance(pts, list) and len(pts) == M and all(isinstance(p_, (int, float, complex)) for p_ in pts)):
+                    return 0
+                if not (isinstance(bp, list) and len(bp) == M and all(isinstance(r, list) and len(r) == b and all(x in (0, 1) for x in r) for r in bp)):
+                    return 0
+                results[(gray, k)] = ([complex(p_) for p_ in pts], [int("".join(str(int(x)) for x in r), 2) for r in bp])
+    except (Unfoldable, FragRaise, FragReturn, TypeError, ValueError, IndexError):
+        return 0
+    bad_grid = bad_bij = bad_nat = bad_gray = None
+    for (gray, k), (pts, labs) in results.items():
+        res, ims = sorted({round(p_.real, 9) for p_ in pts}), sorted({round(p_.imag, 9) for p_ in pts})
+        steps = {round(b_ - a_, 9) for a_, b_ in zip(res, res[1:])} | {round(b_ - a_, 9) for a_, b_ in zip(ims, ims[1:])}
+        if len(set(pts)) != k * k or len(res) != k or len(ims) != k or len(steps) > 1 or res != ims:
+            bad_grid = bad_grid or f"k={k}: points {pts[:5]}... are not the {k} x {k} grid of equidistant levels"
+        if sorted(labs) != list(range(k * k)):
+            bad_bij = bad_bij or f"k={k}, gray_coding={gray}: labels {labs[:8]}... are not a bijection"
+        if not gray and labs != list(range(k * k)):
+            bad_nat = bad_nat or f"k={k}: natural labels are {labs[:8]}..., not binary(i)"
+        if gray and k > 1:
+            dmin = min(abs(p_ - q_) for i_, p_ in enumerate(pts) for q_ in pts[i_ + 1:])
+            for i_, p_ in enumerate(pts):
+                for j_ in range(i_ + 1, len(pts)):
+                    if abs(p_ - pts[j_]) <= dmin * (1 + 1e-9) and bin(labs[i_] ^ labs[j_]).count("1") != 1:
+                        bad_gray = bad_gray or f"k={k}: neighbours {p_} / {pts[j_]} carry {labs[i_]:0{2 * (k.bit_length() - 1)}b} / {labs[j_]:0{2 * (k.bit_length() - 1)}b}"
+    rep.check(bad_grid is None, "GENERATED-TABLE", fi, "QAM points (constructor evaluated for k = 2, 4, 8)", "the k x k product grid of equidistant levels", bad_grid or "")
+    rep.check(bad_bij is None, "GENERATED-TABLE", fi, "QAM labels (constructor evaluated): bijection", "every bit group labels exactly one point", bad_bij or "")
+    rep.check(bad_gray is None, "GENERATED-TABLE", fi, "QAM(gray_coding=True) (constructor evaluated): nearest neighbours", "grid neighbours differ in exactly one bit for k = 2, 4, 8", f"Gray labels of nearest neighbours differ in more than one bit ({bad_gray})" if bad_gray else "")
+    rep.check(bad_nat is None, "GENERATED-TABLE", fi, "QAM(gray_coding=False) (constructor evaluated): label of index i = binary(i)", "natural binary labels", bad_nat or "")
+    return 4
+
+
 def rule_generated(repo: Repo, rep: Report) -> int:
     n = 0
     specs = [
@@ -359,6 +412,10 @@ def rule_generated(repo: Repo, rep: Report) -> int:
     cons = [s for s in stmts_of(fi.body) if isinstance(s, ast.Assign) and unparse(s.targets[0]) in ("real_parts", "imag_parts") and isinstance(s.value, ast.Call)]
     r_ok = any(unparse(s.targets[0]) == "real_parts" and "base_levels[i]" in unparse(s.value) for s in cons)
     i_ok = any(unparse(s.targets[0]) == "imag_parts" and "base_levels[j]" in unparse(s.value) for s in cons)
+    if not (r_ok and i_ok) or not _qam_label_shape_listed(fi):
+        done = qam_by_evaluation(repo, rep, fi)
+        if done:
+            return n + done
     rep.shape(r_ok and i_ok, False, "GENERATED-TABLE", fi, "QAM grid: real = base_levels[i], imag = base_levels[j] for i (outer), j (inner)", "index i*k + j sits at (level i, level j)", "the grid construction changed: index -> position map unknown")
     n += 1
     bl = [s for s in stmts_of(fi.body) if isinstance(s, ast.Assign) and unparse(s.targets[0]) == "base_levels"]
